@@ -10,6 +10,8 @@ STD_NAMES = ["guid", "name", "description", "pose", "points", "prototype", "data
              "colorRedMinimum", "xMinimum", "rowMaximum", "acquisitionStart", "acquisitionEnd", "dateTimeValue", "isAtomicClockReferenced", "temperature", "relativeHumidity", "atmosphericPressure", "sensorVendor", "sensorModel",
              "sensorSerialNumber", "originalGuids", "coordinateMetadata", "creationDateTime", "formatName", "e57LibraryVersion", "versionMajor", "e57Root", "rotation", "translation", "w", "x", "associatedData3DGuid",
              "visualReferenceRepresentation", "pinholeRepresentation", "sphericalRepresentation", "cylindricalRepresentation", "jpegImage", "pngImage", "imageMask", "imageWidth", "pixelWidth", "radius", "acquisitionDateTime"]
+LAST_FORM = ["root-prefix"]
+STD_ATTRS = ["fileOffset", "length", "recordCount", "type", "minimum", "maximum", "allowHeterogeneousChildren", "precision", "scale", "offset"]
 SITES = ["root:first", "root:before-guid", "root:after-guid", "root:before-data3D", "data3D:between", "pc:first", "pc:after-guid", "pc:between", "pc:before-points", "pc:after-points", "root:after-data3D", "img:first", "img:between", "root:last"]
 
 
@@ -20,15 +22,28 @@ def foreign_element(r, x, name_class):
     else:
         name = "f" + "".join(r.choice("abcdefXYZ09_") for _ in range(r.randint(1, 8)))
     kind = r.choice(["string", "float", "integer", "structure", "blob-like", "vector", "nested-standard"])
-    tag = "fx:" + name
+    # three ways to put an element into a foreign namespace: prefix declared on the root, prefix declared
+    # on the element itself, or no prefix at all with the default namespace redeclared on the element
+    form = r.choice(["root-prefix", "root-prefix", "local-prefix", "default-ns-redeclared"])
+    if form == "default-ns-redeclared" and kind in ("string", "float", "integer", "blob-like"):
+        tag = name
+        ns_attr = [("xmlns", FNS + "/unprefixed")]
+    elif form == "local-prefix" and kind in ("string", "float", "integer", "blob-like"):
+        tag = "lp:" + name
+        ns_attr = [("xmlns:lp", FNS + "/local")]
+    else:
+        form = "root-prefix"
+        tag = "fx:" + name
+        ns_attr = []
+    LAST_FORM[0] = form
     if kind == "string":
-        x.leaf(tag, [("type", "String")], encode.cdata(r.choice(["evil", "", "{00000000-FOREIGN}", "<x>"])))
+        x.leaf(tag, ns_attr + [("type", "String")], encode.cdata(r.choice(["evil", "", "{00000000-FOREIGN}", "<x>"])))
     elif kind == "float":
-        x.leaf(tag, [("type", "Float")], r.choice(["12345.5", "-1", "NaN", "1e300"]))
+        x.leaf(tag, ns_attr + [("type", "Float")], r.choice(["12345.5", "-1", "NaN", "1e300"]))
     elif kind == "integer":
-        x.leaf(tag, [("type", "Integer")], r.choice(["7", "-9", "999999999999"]))
+        x.leaf(tag, ns_attr + [("type", "Integer")], r.choice(["7", "-9", "999999999999"]))
     elif kind == "blob-like":
-        x.leaf(tag, [("type", "Blob"), ("fileOffset", r.choice([0, 48, 1020, 5])), ("length", r.choice([0, 16, 10 ** 9]))], "")
+        x.leaf(tag, ns_attr + [("type", "Blob"), ("fileOffset", r.choice([0, 48, 1020, 5])), ("length", r.choice([0, 16, 10 ** 9]))], "")
     elif kind == "vector":
         x.open(tag, [("type", "Vector"), ("allowHeterogeneousChildren", 1)])
         for _ in range(r.randint(0, 2)):
@@ -81,12 +96,26 @@ def make_pair(seed, i):
             if site == where and j not in counters:
                 counters[j] = True
                 name, kind = foreign_element(plan_r, x, cls)
-                log.append({"site": where, "name_class": cls, "name": name, "kind": kind})
+                log.append({"site": where, "name_class": cls, "name": name, "kind": kind, "form": LAST_FORM[0]})
 
-    hooks = {"root_attrs": [("xmlns:fx", FNS)], "insert": insert}
+    # foreign attributes on standard elements (outside prototypes), named like standard attributes or randomly,
+    # in front of or behind the standard attributes
+    attr_budget = [plan_r.randint(0, 4)]
+
+    def attrs(items):
+        if attr_budget[0] > 0 and plan_r.random() < 0.08:
+            attr_budget[0] -= 1
+            nm = plan_r.choice(STD_ATTRS) if plan_r.random() < 0.7 else "note" + str(plan_r.randrange(100))
+            val = plan_r.choice(["0", "3", "48", "1020", "Blob", "Integer", "x"])
+            where = plan_r.choice(["front", "behind"])
+            items = ([("fx:" + nm, val)] + items) if where == "front" else (items + [("fx:" + nm, val)])
+            log.append({"site": "attribute-on-standard-element", "name_class": "standard-name" if nm in STD_ATTRS else "random-name", "name": nm, "kind": "attribute-" + where, "form": "root-prefix"})
+        return items
+
+    hooks = {"root_attrs": [("xmlns:fx", FNS)], "insert": insert, "attrs": attrs}
     if plan_r.random() < 0.4:
         hooks["root_attrs"].append(("fx:note", "foreign attribute on the root"))
-        log.append({"site": "root-attribute", "name_class": "attribute", "name": "note", "kind": "attribute"})
+        log.append({"site": "root-attribute", "name_class": "attribute", "name": "note", "kind": "attribute", "form": "root-prefix"})
     var_img, _ = encode.encode(s, r, lay, hooks)
     return base_img, var_img, log
 
